@@ -45,6 +45,10 @@ class Violation(Exception):
         self.detail = detail
 
 
+class _StopShrink(BaseException):
+    pass
+
+
 class Arm:
     kind = "?"
 
@@ -185,9 +189,9 @@ def _hyp_worker(args):
             if time.time() > deadline:
                 stats.extra["skipped_after_deadline"] += 1
                 return
-            if last and time.time() - last["t0"] > shrink_cap and case != last["case"]:
-                # shrinking budget used up: let the shrinker finish with the best example so far
-                return
+            if last and time.time() - last["t0"] > shrink_cap:
+                # shrinking budget used up: stop with the best (most recent failing) example so far
+                raise _StopShrink()
             stats.evaluations += 1
             try:
                 _check_one(arm, case, stats, known_sigs)
@@ -212,7 +216,7 @@ def _hyp_worker(args):
         )
         try:
             test()
-        except Violation:
+        except (Violation, _StopShrink):
             v = last["v"]
             stats.violations.append(
                 {"kind": v.kind, "message": v.message, "case": last["case"], "detail": v.detail}
